@@ -75,6 +75,12 @@ pub fn base() -> Vec<F> {
         f("get", "get 2", 1, 1, Map, 0, 0),
         f("remove", "remove 2", 1, 1, Map, 0, 0),
         f("insert", "insert 7 8", 1, 1, Map, 0, 0),
+        // the key exists (maps of the generator have keys 1..n): the undo must restore the old entry
+        f("insert-existing", "insert 2 8", 1, 1, Map, 0, 0),
+        // subscripted rows: the undo must give every row back its own context (cc8ac7d)
+        f("rows1-first", "≡₁⊢", 1, 1, Positional, 2, 1),
+        f("rows1-reverse", "≡₁⇌", 1, 1, Positional, 2, 1),
+        f("rows2-first", "≡₂⊢", 1, 1, Positional, 3, 1),
         f("partition-box", "⊜□", 2, 1, ByValue, 1, 1),
         f("group-box", "⊕□", 2, 1, ByValue, 1, 1),
     ]
@@ -82,7 +88,8 @@ pub fn base() -> Vec<F> {
 
 /// rows/each/both/bracket/dip/on/fork of the monadic positional selectors
 pub fn combined(r: &mut Rng, n: usize) -> Vec<F> {
-    let b: Vec<F> = base().into_iter().filter(|x| x.args == 1 && x.kind == Kind::Positional).collect();
+    // (subscripted rows are catalogue entries of their own: inside a sequence the rank bookkeeping below does not cover them)
+    let b: Vec<F> = base().into_iter().filter(|x| x.args == 1 && x.kind == Kind::Positional && !x.name.starts_with("rows")).collect();
     let mut out = Vec::new();
     for x in &b {
         if x.min_rank >= 1 {
@@ -90,17 +97,17 @@ pub fn combined(r: &mut Rng, n: usize) -> Vec<F> {
         }
         out.push(F { name: format!("dip({})", x.name), src: format!("⊙({})", x.src), args: 2, outs: 2, ..x.clone() });
         out.push(F { name: format!("both({})", x.name), src: format!("∩({})", x.src), args: 2, outs: 2, ..x.clone() });
+        out.push(F { name: format!("on({})", x.name), src: format!("⟜({})", x.src), args: 1, outs: 2, ..x.clone() });
     }
     for _ in 0..n {
         let x = r.pick(&b).clone();
         let y = r.pick(&b).clone();
         let mr = x.min_rank.max(y.min_rank);
         let mw = x.min_rows.max(y.min_rows);
-        match r.below(4) {
+        match r.below(3) {
             0 => out.push(F { name: format!("fork({},{})", x.name, y.name), src: format!("⊃({})({})", x.src, y.src), args: 1, outs: 2, kind: Kind::Positional, min_rank: mr, min_rows: mw }),
             1 => out.push(F { name: format!("bracket({},{})", x.name, y.name), src: format!("⊓({})({})", x.src, y.src), args: 2, outs: 2, kind: Kind::Positional, min_rank: mr, min_rows: mw }),
-            2 => out.push(F { name: format!("seq({},{})", x.name, y.name), src: format!("({}) ({})", y.src, x.src), args: 1, outs: 1, kind: Kind::Positional, min_rank: mr + 1, min_rows: mw.max(3) }),
-            _ => out.push(F { name: format!("on({})", x.name), src: format!("⟜({})", x.src), args: 1, outs: 2, kind: Kind::Positional, min_rank: mr, min_rows: mw }),
+            _ => out.push(F { name: format!("seq({},{})", x.name, y.name), src: format!("({}) ({})", y.src, x.src), args: 1, outs: 1, kind: Kind::Positional, min_rank: mr + 1, min_rows: mw.max(3) }),
         }
     }
     out
@@ -567,7 +574,29 @@ fn main() {
         "search" => {
             // regression inputs of repaired defects (37254dd switch selector under an under-condition,
             // e20bf71 undo keep / a8d90c3 undo select on rows without elements): must succeed, leave no residue
-            for (src, want) in [("⍜(⨬(×2)(+1))(×10) [] []", Some("[0]:[]")), ("⍜(▽1_1_7)⇌↯2_0_2 0", None), ("⬚0⍜(⊏¯4)⇌↯3_0 0", None), ("⍜(⨬(×2)(+1))(×10) 1 5", Some("[]:59"))] {
+            let mp = "map [1 2 3] [4 5 6]";
+            let progs: Vec<(String, Option<&str>)> = vec![
+                ("⍜(⨬(×2)(+1))(×10) [] []".into(), Some("[0]:[]")),
+                ("⍜(▽1_1_7)⇌↯2_0_2 0".into(), None),
+                ("⬚0⍜(⊏¯4)⇌↯3_0 0".into(), None),
+                ("⍜(⨬(×2)(+1))(×10) 1 5".into(), Some("[]:59")),
+                // round 5: cc8ac7d undo of subscripted rows, 28948e4 restoring an entry whose key is present,
+                // ee5bf28 undo keep with the rank raised by two
+                ("≍ [[[0 1][60 7]][[20 3][80 9]][[40 5][100 11]]] ⍉ ⍜≡₁⊢(×10) ↯2_3_2⇡12".into(), None),
+                ("≍ ↯2_3_2[0 1 20 3 40 5 60 7 80 9 100 11] ⍜≡₁⊢(×10) ↯2_3_2⇡12".into(), Some("[]:1")),
+                (format!("≍ {mp} ⍜insert∘ 1 10 {mp}"), Some("[]:1")),
+                (format!("≍ {mp} ⍜(insert 1)∘ 10 {mp}"), Some("[]:1")),
+                (format!("≍ {mp} ⍜(insert 7 10)∘ {mp}"), Some("[]:1")),
+                (format!("≍ {mp} ⍜(remove 2)∘ {mp}"), Some("[]:1")),
+                (format!("≍ map [1 2 3] [4 6 6] ⍜(get 2)(+1) {mp}"), Some("[]:1")),
+                ("≍ ↯2_2_3[1 2 3] ⍜(▽[1 0 1])(↯2_2_2) [1 2 3]".into(), Some("[]:1")),
+                (format!("≍ {mp} ⍜(▽[1 0 1])∘ {mp}"), Some("[]:1")),
+                (format!("≍ {mp} ⍜(⇌)∘ {mp}"), Some("[]:1")),
+                (format!("≍ {mp} ⍜(⊏[0 2])∘ {mp}"), Some("[]:1")),
+                (format!("≍ {mp} ⍜(↻1)∘ {mp}"), Some("[]:1")),
+            ];
+            for (src, want) in progs {
+                let src = src.as_str();
                 let (res, d, un) = run_depths(&format!("# Experimental!\n{src}"), &[]);
                 let f0 = &fs[0];
                 match res {
@@ -575,6 +604,11 @@ fn main() {
                         if let Some(w) = want {
                             if show(&out) != w {
                                 viol("regression", f0, src, &[], &format!("expected {w}, got {}", show(&out)));
+                            }
+                        }
+                        for v in &out {
+                            if let Err(e) = uiua::verif::check_value(v) {
+                                viol("regression", f0, src, &[], &format!("the result is not a well-formed value: {e}"));
                             }
                         }
                         if let Some(e) = residue(&d, un) {
